@@ -1,10 +1,14 @@
 /-
   Props.C09 — every valid BER form of a value decodes to that value.
-  Proved here: the framing layer accepts every form X.690 leaves open for lengths and nesting.
+  The set BER(T, v) is the relation `IsBer berProfile T v` of Asn1/BerSpec.lean together with
+  `TLV.WF` (any header that decodes to the right tag and length — short, long, over-long —, definite
+  or indefinite at every constructed level).
 -/
 import Asn1.Generated
 import Asn1.X690
+import Asn1.BerSpec
 import Proofs.Parse
+import Proofs.Complete
 
 namespace Asn1.C09
 
@@ -20,5 +24,38 @@ theorem every_framing_accepted (t : TLV) (tail : Bytes) (hw : t.WF) :
     for over-long forms) -/
 example : HdrOk [0x04, 0x82, 0x00, 0x03] ⟨.universal, false, 4⟩ (.definite 3) :=
   ⟨[0x04], [0x82, 0x00, 0x03], rfl, fun _ => rfl, fun _ => rfl⟩
+
+/-- the BER decoder tables extracted from the source admit everything the basic rules allow -/
+theorem ber_compat : Compat berProfile Generated.berDecByType :=
+  { bool := fun _ => rfl, seg := fun _ => ⟨rfl, by decide⟩ }
+
+/-- **every valid BER form decodes to the value** (types without ANY and REAL).  For every
+    well-formed type, every value, every tree `x` that the basic encoding rules allow as an encoding
+    of the value — any length forms, definite or indefinite at each level, primitive or segmented
+    (also nested) strings, any non-zero octet for TRUE, SET members in any order, SET OF elements
+    in any order, DEFAULT members present or absent — followed by any octets: the BER decoder
+    returns the value (equal up to the order of SET OF elements) and exactly the octets that follow. -/
+theorem every_ber_form_decodes (t : Ty) (v : Val) (x : TLV) (tail : Bytes)
+    (hp : t.plain = true) (hw : t.WF = true) (hx : x.WF) (hb : IsBer berProfile t v x) :
+    ∃ w, decodeOne Generated.berDecByType t (x.ser ++ tail) = .ok (w, tail) ∧ VEq t v w := by
+  obtain ⟨w, hd, hv, _⟩ := complete_ty berProfile Generated.berDecByType ber_compat t v x hp hw hb
+  have hpo := parseOne_ser Generated.berDecByType.parse x tail hx (Or.inl rfl)
+  refine ⟨w, ?_, hv⟩
+  unfold decodeOne
+  rw [hpo]
+  simp [hd, Except.map]
+
+/-- the relation is inhabited by forms the library's own encoder never produces: a SET whose
+    members arrive in the opposite order, the first one TRUE written as 0x01, inside an
+    indefinite-length element with an over-long length octet on a member -/
+example :
+    let t : Ty := .set (.cons .req (.prim .boolean) (.cons .req (.prim .null) .nil))
+    let x : TLV := .cons [0x31, 0x80] ⟨.universal, true, 17⟩ true
+      [.prim [0x05, 0x81, 0x00] ⟨.universal, false, 5⟩ [], .prim [0x01, 0x01] ⟨.universal, false, 1⟩ [0x01]]
+    IsBer berProfile t (.seq [.bool true, .null]) x := by
+  refine .set rfl rfl (.set (ms := [.prim [0x01, 0x01] ⟨.universal, false, 1⟩ [0x01],
+      .prim [0x05, 0x81, 0x00] ⟨.universal, false, 5⟩ []]) ?_ (List.Perm.swap _ _ _))
+  exact .present (.prim rfl rfl (.boolTrue (by decide)))
+    (.present (.prim rfl rfl .null) .nil)
 
 end Asn1.C09
